@@ -637,3 +637,7 @@ def check(ctx: Ctx) -> None:
     from ..reqtree import RequestTree
     with ctx.borrowed({"R5.6": "R15.8"}):
         c05.r5_6(ctx, RequestTree(ctx.ix))
+    # "deleted items are unavailable to further actions" is enforced by the exists / not-deleted permission rules: C11's R11.4
+    from . import c11
+    with ctx.borrowed({"R11.4": "R15.9"}):
+        c11.r11_4(ctx)
